@@ -235,7 +235,7 @@ Definition stack (s : ash) (u : nat) : list nat :=
   match nth_error (ahl s) u with Some (_, l) => l | None => [] end.
 Definition twostage (s : ash) (u : nat) : bool :=
   match nth_error (ahl s) u with Some (b, _) => b | None => false end.
-Definition is_pre (ph : aphase) : bool := match ph with LPre _ _ => true | _ => false end.
+Definition is_pre (ph : aphase) : bool := match ph with LPre _ _ | LDone => true | _ => false end.
 Definition stage2b_of (ph : aphase) : option (nat * nat) :=
   match ph with LStage2b u h _ => Some (u, h) | _ => None end.
 Definition fcur (t : athread) : option dst := match t with AF c _ => c | AL _ => None end.
@@ -300,35 +300,39 @@ Inductive cstep (on_loop : bool) (s : ash) : option dst -> list aop -> ash -> op
     (on_loop || negb (arunning s) || negb (ts && fixed)) = true ->
     cstep on_loop s None (ADispose u :: r)
       (ASh (aclock s) (arunning s) (awoken s) (ahs s) (aready s) (atimers s) (l ++ acanc s) (ahl s) (adue s)
-           (u :: adisp s) (afut s) (anfut s) (aran s) (u :: aeff s)) None r [ADispRet u]
+           (u :: adisp s) (afut s) (anfut s) (aran s) (u :: aeff s) (astopping s) (asegs s)) None r [ADispRet u]
 | C_two_empty : forall u r, nth_error (ahl s) u = Some (true, []) -> amem u (adisp s) = false ->
     (on_loop || negb (arunning s) || negb (ts && fixed)) = true ->
     cstep on_loop s None (ADispose u :: r)
       (ASh (aclock s) (arunning s) (awoken s) (ahs s) (aready s) (atimers s) (acanc s) (ahl s) (adue s)
-           (u :: adisp s) (afut s) (anfut s) (aran s) (u :: aeff s)) None r [ADispRet u]
+           (u :: adisp s) (afut s) (anfut s) (aran s) (u :: aeff s) (astopping s) (asegs s)) None r [ADispRet u]
 | C_two_first : forall u r x l, nth_error (ahl s) u = Some (true, x :: l) -> amem u (adisp s) = false ->
     (on_loop || negb (arunning s) || negb (ts && fixed)) = true ->
     cstep on_loop s None (ADispose u :: r)
       (ASh (aclock s) (arunning s) (awoken s) (ahs s) (aready s) (atimers s) (last (x :: l) 0%nat :: acanc s)
            (aupd u (true, removelast (x :: l)) (ahl s)) (adue s)
-           (u :: adisp s) (afut s) (anfut s) (aran s) (aeff s)) (Some (FPop2 u)) r []
+           (u :: adisp s) (afut s) (anfut s) (aran s) (aeff s) (astopping s) (asegs s)) (Some (FPop2 u)) r []
 | C_marshal : forall u r two l, nth_error (ahl s) u = Some (two, l) -> amem u (adisp s) = false ->
     (on_loop || negb (arunning s) || negb (ts && fixed)) = false ->
     cstep on_loop s None (ADispose u :: r)
       (ASh (aclock s) (arunning s) true (ahs s ++ [CbCancel u (anfut s)]) (aready s ++ [length (ahs s)]) (atimers s)
-           (acanc s) (ahl s) (adue s) (u :: adisp s) (afut s) (S (anfut s)) (aran s) (aeff s))
+           (acanc s) (ahl s) (adue s) (u :: adisp s) (afut s) (S (anfut s)) (aran s) (aeff s) (astopping s) (asegs s))
       (Some (FWait u (anfut s))) r []
 | C_pop2 : forall u todo b x l, nth_error (ahl s) u = Some (b, x :: l) ->
     cstep on_loop s (Some (FPop2 u)) todo
       (ASh (aclock s) (arunning s) (awoken s) (ahs s) (aready s) (atimers s) (last (x :: l) 0%nat :: acanc s)
            (aupd u (true, removelast (x :: l)) (ahl s)) (adue s)
-           (adisp s) (afut s) (anfut s) (aran s) (u :: aeff s)) None todo [ADispRet u]
+           (adisp s) (afut s) (anfut s) (aran s) (u :: aeff s) (astopping s) (asegs s)) None todo [ADispRet u]
 | C_pop2_empty : forall u todo, stack s u = [] ->
     cstep on_loop s (Some (FPop2 u)) todo
       (ASh (aclock s) (arunning s) (awoken s) (ahs s) (aready s) (atimers s) (acanc s) (ahl s) (adue s)
-           (adisp s) (afut s) (anfut s) (aran s) (u :: aeff s)) None todo [ADispRet u]
+           (adisp s) (afut s) (anfut s) (aran s) (u :: aeff s) (astopping s) (asegs s)) None todo [ADispRet u]
 | C_wait : forall u f todo, amem f (afut s) = true ->
-    cstep on_loop s (Some (FWait u f)) todo s None todo [ADispRet u].
+    cstep on_loop s (Some (FWait u f)) todo s None todo [ADispRet u]
+| C_stop : forall r,
+    cstep on_loop s None (AStop :: r) (set_stop s true (asegs s)) None r [AStopEv]
+| C_sleep : forall t r, t <= aclock s ->
+    cstep on_loop s None (ASleep t :: r) s None r [ASlept].
 
 Lemma call_step_spec : forall on_loop s cur todo s' cur' todo' out,
   call_step ts fixed on_loop s cur todo = Some (s', cur', todo', out) ->
@@ -336,23 +340,25 @@ Lemma call_step_spec : forall on_loop s cur todo s' cur' todo' out,
 Proof.
   intros on_loop s cur todo s' cur' todo' out H. unfold call_step in H. destruct cur as [[u|u f]|].
   - unfold do_cont in H. destruct (nth_error (ahl s) u) as [[b [|x l]]|] eqn:N; inv H;
-      unfold set_canc; cbn [aclock arunning awoken ahs aready atimers acanc ahl adue adisp afut anfut aran aeff].
+      unfold set_canc; cbn [aclock arunning awoken ahs aready atimers acanc ahl adue adisp afut anfut aran aeff astopping asegs].
     + apply C_pop2_empty. unfold stack. rewrite N. reflexivity.
     + eapply C_pop2. exact N.
     + apply C_pop2_empty. unfold stack. rewrite N. reflexivity.
   - unfold do_cont in H. destruct (amem f (afut s)) eqn:M; inv H. apply C_wait. exact M.
-  - destruct todo as [|[|d|u] r]; [discriminate H| | |].
+  - destruct todo as [|[|d|u| |t] r]; [discriminate H| | | | |].
     + pose proof (C_now on_loop s r) as X. destruct (do_sched ts s 0) as [s1 o1] eqn:D. inv H. exact X.
     + pose proof (C_rel on_loop s d r) as X. destruct (do_sched ts s d) as [s1 o1] eqn:D. inv H. exact X.
     + unfold do_dispose in H. destruct (nth_error (ahl s) u) as [[two l]|] eqn:N; [|inv H; apply C_noop1; exact N].
       destruct (amem u (adisp s)) eqn:M; [inv H; eapply C_noop2; eassumption|].
       destruct (on_loop || negb (arunning s) || negb (ts && fixed)) eqn:DIR.
       * destruct two.
-        -- destruct l as [|x l]; inv H; unfold set_canc; cbn [aclock arunning awoken ahs aready atimers acanc ahl adue adisp afut anfut aran aeff];
+        -- destruct l as [|x l]; inv H; unfold set_canc; cbn [aclock arunning awoken ahs aready atimers acanc ahl adue adisp afut anfut aran aeff astopping asegs];
              [apply C_two_empty|apply C_two_first]; assumption.
-        -- inv H. unfold set_canc; cbn [aclock arunning awoken ahs aready atimers acanc ahl adue adisp afut anfut aran aeff].
+        -- inv H. unfold set_canc; cbn [aclock arunning awoken ahs aready atimers acanc ahl adue adisp afut anfut aran aeff astopping asegs].
            apply C_single; assumption.
       * inv H. eapply C_marshal; eassumption.
+    + inv H. apply C_stop.
+    + destruct (t <=? aclock s) eqn:E; inv H. apply C_sleep. apply Z.leb_le. exact E.
 Qed.
 End Facts.
 
@@ -464,7 +470,7 @@ Qed.
 End Facts.
 
 (* ---------------------------------------------------------------- part 5 *)
-Ltac proj := cbn [aclock arunning awoken ahs aready atimers acanc ahl adue adisp afut anfut aran aeff] in *.
+Ltac proj := cbn [aclock arunning awoken ahs aready atimers acanc ahl adue adisp afut anfut aran aeff astopping asegs] in *.
 
 Section Facts.
 Variable ts : bool.
@@ -482,7 +488,7 @@ Proof.
   (* the three shapes share everything but where the handle goes and what it is *)
   assert (SH : exists c two woken rd tm dv,
             fst (do_sched ts s d) = ASh (aclock s) (arunning s) woken (ahs s ++ [c]) rd tm (acanc s)
-                                        (ahl s ++ [(two, [h])]) (adue s ++ [dv]) (adisp s) (afut s) (anfut s) (aran s) (aeff s) /\
+                                        (ahl s ++ [(two, [h])]) (adue s ++ [dv]) (adisp s) (afut s) (anfut s) (aran s) (aeff s) (astopping s) (asegs s) /\
             snd (do_sched ts s d) = [ARet u] /\
             ((c = CbAction u /\ two = false) \/ (exists d', c = CbStage2 u d' /\ two = true)) /\
             ((rd = aready s ++ [h] /\ tm = atimers s) \/ (rd = aready s /\ exists w, tm = tinsert w h (atimers s) /\ c = CbAction u))).
@@ -492,10 +498,10 @@ Proof.
     - do 6 eexists. split; [reflexivity|]. split; [reflexivity|]. split; [left; auto|right; eauto]. }
   destruct SH as (c & two & woken & rd & tm & dv & -> & -> & CK & PL).
   assert (OWN : owner (ASh (aclock s) (arunning s) woken (ahs s ++ [c]) rd tm (acanc s)
-                           (ahl s ++ [(two, [h])]) (adue s ++ [dv]) (adisp s) (afut s) (anfut s) (aran s) (aeff s)) h = Some u).
+                           (ahl s ++ [(two, [h])]) (adue s ++ [dv]) (adisp s) (afut s) (anfut s) (aran s) (aeff s) (astopping s) (asegs s)) h = Some u).
   { unfold owner. proj. unfold h. rewrite nth_error_app_last. destruct CK as [[-> _]|[d' [-> _]]]; reflexivity. }
   assert (OLD : forall h0 u0, owner (ASh (aclock s) (arunning s) woken (ahs s ++ [c]) rd tm (acanc s)
-                           (ahl s ++ [(two, [h])]) (adue s ++ [dv]) (adisp s) (afut s) (anfut s) (aran s) (aeff s)) h0 = Some u0 ->
+                           (ahl s ++ [(two, [h])]) (adue s ++ [dv]) (adisp s) (afut s) (anfut s) (aran s) (aeff s) (astopping s) (asegs s)) h0 = Some u0 ->
                   (owner s h0 = Some u0) \/ (h0 = h /\ u0 = u)).
   { intros h0 u0 O. unfold owner in *. proj. destruct (nth_error (ahs s ++ [c]) h0) as [x|] eqn:N; [|discriminate O].
     apply nth_error_app_inv in N. destruct N as [N|[-> ->]].
@@ -503,14 +509,14 @@ Proof.
     - right. split; [reflexivity|]. destruct CK as [[-> _]|[d' [-> _]]]; inv O; reflexivity. }
   assert (STK : forall u0, (u0 < u)%nat ->
             stack (ASh (aclock s) (arunning s) woken (ahs s ++ [c]) rd tm (acanc s)
-                       (ahl s ++ [(two, [h])]) (adue s ++ [dv]) (adisp s) (afut s) (anfut s) (aran s) (aeff s)) u0 = stack s u0 /\
+                       (ahl s ++ [(two, [h])]) (adue s ++ [dv]) (adisp s) (afut s) (anfut s) (aran s) (aeff s) (astopping s) (asegs s)) u0 = stack s u0 /\
             twostage (ASh (aclock s) (arunning s) woken (ahs s ++ [c]) rd tm (acanc s)
-                       (ahl s ++ [(two, [h])]) (adue s ++ [dv]) (adisp s) (afut s) (anfut s) (aran s) (aeff s)) u0 = twostage s u0).
+                       (ahl s ++ [(two, [h])]) (adue s ++ [dv]) (adisp s) (afut s) (anfut s) (aran s) (aeff s) (astopping s) (asegs s)) u0 = twostage s u0).
   { intros u0 L. unfold stack, twostage. proj. rewrite hl_app_old by exact L. auto. }
   assert (STKN : stack (ASh (aclock s) (arunning s) woken (ahs s ++ [c]) rd tm (acanc s)
-                       (ahl s ++ [(two, [h])]) (adue s ++ [dv]) (adisp s) (afut s) (anfut s) (aran s) (aeff s)) u = [h] /\
+                       (ahl s ++ [(two, [h])]) (adue s ++ [dv]) (adisp s) (afut s) (anfut s) (aran s) (aeff s) (astopping s) (asegs s)) u = [h] /\
                  twostage (ASh (aclock s) (arunning s) woken (ahs s ++ [c]) rd tm (acanc s)
-                       (ahl s ++ [(two, [h])]) (adue s ++ [dv]) (adisp s) (afut s) (anfut s) (aran s) (aeff s)) u = two).
+                       (ahl s ++ [(two, [h])]) (adue s ++ [dv]) (adisp s) (afut s) (anfut s) (aran s) (aeff s) (astopping s) (asegs s)) u = two).
   { unfold stack, twostage. proj. unfold u. rewrite nth_error_app_last. auto. }
   assert (TWO_LT : forall u0, twostage s u0 = true -> (u0 < u)%nat).
   { intros u0 T. unfold twostage in T. apply nth_error_Some. destruct (nth_error (ahl s) u0); [discriminate|discriminate T]. }
@@ -638,7 +644,7 @@ Lemma Q_cancel_gen : forall safe s ph rest log ol ph' rest' cur todo cur' todo' 
   let stk' := match newstk with Some l' => l' | None => stack s u end in
   let hl' := match newstk with Some l' => aupd u (true, l') (ahl s) | None => ahl s end in
   let s' := ASh (aclock s) (arunning s) (awoken s) (ahs s) (aready s) (atimers s) (cn ++ acanc s) hl' (adue s) dsp
-                (afut s) (anfut s) (aran s) (if effb then u :: aeff s else aeff s) in
+                (afut s) (anfut s) (aran s) (if effb then u :: aeff s else aeff s) (astopping s) (asegs s) in
   (newstk <> None -> twostage s u = true) ->
   (forall x, In x (stack s u) -> In x stk' \/ In x cn) ->
   (length stk' <= length (stack s u))%nat ->
@@ -772,14 +778,14 @@ Lemma Q_marshal : forall safe s ph rest log ph' rest' todo todo' u dsp,
   executor ts fixed safe ph rest None todo false ph' rest' (Some (FWait u (anfut s))) todo' ->
   (u < length (ahl s))%nat ->
   Q safe (ASh (aclock s) (arunning s) true (ahs s ++ [CbCancel u (anfut s)]) (aready s ++ [length (ahs s)]) (atimers s)
-              (acanc s) (ahl s) (adue s) dsp (afut s) (S (anfut s)) (aran s) (aeff s))
+              (acanc s) (ahl s) (adue s) dsp (afut s) (S (anfut s)) (aran s) (aeff s) (astopping s) (asegs s))
     ph' rest' (log ++ []).
 Proof.
   intros safe s ph rest log ph' rest' todo todo' u dsp q EX UL.
   destruct (executor_shape _ _ _ _ _ _ _ _ _ _ _ _ EX) as (HH & HS & HP & HL & HF).
   set (h := length (ahs s)).
   set (s' := ASh (aclock s) (arunning s) true (ahs s ++ [CbCancel u (anfut s)]) (aready s ++ [h]) (atimers s)
-              (acanc s) (ahl s) (adue s) dsp (afut s) (S (anfut s)) (aran s) (aeff s)).
+              (acanc s) (ahl s) (adue s) dsp (afut s) (S (anfut s)) (aran s) (aeff s) (astopping s) (asegs s)).
   assert (OWN : forall h0 u0, owner s' h0 = Some u0 -> owner s h0 = Some u0).
   { intros h0 u0 O. unfold owner in *. unfold s' in O. proj. destruct (nth_error (ahs s ++ [CbCancel u (anfut s)]) h0) as [x|] eqn:N; [|discriminate O].
     apply nth_error_app_inv in N. destruct N as [N|[-> ->]]; [rewrite N; exact O|discriminate O]. }
@@ -839,6 +845,11 @@ Proof.
 Qed.
 End Facts.
 
+(* Q does not look at loop._stopping nor at the future segments of the loop thread *)
+Lemma Q_fields : forall safe s ph rest log b sg,
+  Q safe s ph rest log -> Q safe (set_stop s b sg) ph rest log.
+Proof. intros safe s ph rest log b sg q. constructor; unfold set_stop; proj; apply q. Qed.
+
 (* ---------------------------------------------------------------- part 8 *)
 Section Facts.
 Variable ts : bool.
@@ -863,7 +874,7 @@ Proof.
   destruct (executor_foreign _ _ _ _ _ _ _ _ _ EX) as (n & NT & SF & ->).
   assert (NE : rest <> []) by (intros ->; destruct n; discriminate NT).
   pose proof (q_safe _ _ _ _ _ q NE) as S. rewrite <- SF, S in D. cbn in D. rewrite orb_false_r in D. apply negb_true_iff in D.
-  split; [|intros _; exact D]. pose proof (q_run _ _ _ _ _ q) as R. rewrite D in R. destruct ph; try discriminate R. reflexivity.
+  split; [|intros _; exact D]. pose proof (q_run _ _ _ _ _ q) as R. rewrite D in R. destruct ph; try discriminate R; reflexivity.
 Qed.
 
 Lemma Q_cstep : forall safe s ph rest log cur todo ol ph' rest' cur' todo' s' out,
@@ -915,7 +926,7 @@ Proof.
       - destruct (HL eq_refl) as (_ & NS & LC & _). destruct (q_lpop _ _ _ _ _ q u LC) as [T LN]. auto.
       - destruct (executor_foreign _ _ _ _ _ _ _ _ _ EX) as (n & NT & SF & ->).
         destruct (q_fpop _ _ _ _ _ q _ u (nth_error_In _ _ NT) eq_refl) as (RN & T & LN). repeat split; auto.
-        pose proof (q_run _ _ _ _ _ q) as R. rewrite RN in R. destruct ph; try discriminate R. reflexivity. }
+        pose proof (q_run _ _ _ _ _ q) as R. rewrite RN in R. destruct ph; try discriminate R; reflexivity. }
     destruct FACT as (TW & LN & NS).
     assert (UL : (u < length (ahl s))%nat) by (apply nth_error_Some; congruence).
     assert (ST : stack s u = x :: l) by (unfold stack; rewrite H; reflexivity).
@@ -931,7 +942,7 @@ Proof.
         unfold twostage in T. apply nth_error_Some. destruct (nth_error (ahl s) u); [discriminate|discriminate T].
       - destruct (executor_foreign _ _ _ _ _ _ _ _ _ EX) as (n & NT & SF & ->).
         destruct (q_fpop _ _ _ _ _ q _ u (nth_error_In _ _ NT) eq_refl) as (RN & T & LN). split.
-        + pose proof (q_run _ _ _ _ _ q) as R. rewrite RN in R. destruct ph; try discriminate R. reflexivity.
+        + pose proof (q_run _ _ _ _ _ q) as R. rewrite RN in R. destruct ph; try discriminate R; reflexivity.
         + unfold twostage in T. apply nth_error_Some. destruct (nth_error (ahl s) u); [discriminate|discriminate T]. }
     destruct FACT as (NS & UL).
     pose proof (Q_cancel_gen ts fixed safe s ph rest log ol ph' rest' (Some (FPop2 u)) todo' None todo' u
@@ -944,6 +955,10 @@ Proof.
     + destruct (HL eq_refl) as (_ & _ & LC & _). exfalso. eapply (q_lwait _ _ _ _ _ q); exact LC.
     + destruct (executor_foreign _ _ _ _ _ _ _ _ _ EX) as (n & NT & SF & ->).
       destruct (q_fwait _ _ _ _ _ q _ u0 f (nth_error_In _ _ NT) eq_refl) as [_ E]. apply E, H.
+  - (* loop.stop() *)
+    apply Q_fields. eapply Q_same; try eassumption; [intros u0; discriminate|intros u0 E; discriminate E].
+  - (* the sleep is over *)
+    eapply Q_same; try eassumption; [intros u0; discriminate|intros u0 E; discriminate E].
 Qed.
 End Facts.
 
@@ -1027,10 +1042,10 @@ Proof.
     + destruct (q_timers _ _ _ _ _ q _ _ Y) as [u1 N1]. congruence.
 Qed.
 
-Lemma Q_end_iter : forall safe s rest log dl0,
-  Q safe s (LIdle dl0) rest log -> Q safe (fst (end_iter s)) (snd (end_iter s)) rest log.
+Lemma Q_begin_iter : forall safe s rest log dl0,
+  Q safe s (LIdle dl0) rest log -> Q safe (fst (begin_iter s)) (snd (begin_iter s)) rest log.
 Proof.
-  intros safe s rest log dl0 q. unfold end_iter. cbn [fst snd].
+  intros safe s rest log dl0 q. unfold begin_iter. cbn [fst snd].
   destruct (drop_cancelled_suffix (acanc s) (atimers s)) as [pre E].
   eapply Q_requeue with (ph := LIdle dl0); try reflexivity; try exact q; cbn [held app].
   - intros x I. apply in_app_or in I. apply in_or_app. destruct I as [I|I]; [left; exact I|right].
@@ -1042,6 +1057,50 @@ Proof.
     + intros x X Y. eapply NoDup_app_disj; [exact N|exact X|]. apply in_or_app. right. exact Y.
   - intros x I. left. exact I.
   - intros x I. eapply drop_cancelled_in, I.
+Qed.
+
+(* run_forever() returns between two iterations: nothing is held, stage2 is not in progress, no foreign
+   thread is inside a direct dispose (it would have found the loop not running) *)
+Lemma Q_stop : forall safe s rest log dl0 ph' sg,
+  Q safe s (LIdle dl0) rest log -> is_pre ph' = true -> held ph' = [] -> stage2b_of ph' = None -> lcur ph' = None ->
+  Q safe (ASh (aclock s) false (awoken s) (ahs s) (aready s) (atimers s) (acanc s) (ahl s) (adue s) (adisp s)
+              (afut s) (anfut s) (aran s) (aeff s) false sg) ph' rest log.
+Proof.
+  intros safe s rest log dl0 ph' sg q P H S L.
+  assert (RUN : arunning s = true) by (rewrite (q_run _ _ _ _ _ q); reflexivity).
+  constructor; proj; rewrite ?P, ?H, ?S, ?L; cbn [app negb].
+  - apply (q_af _ _ _ _ _ q).
+  - apply (q_safe _ _ _ _ _ q).
+  - apply (q_bound _ _ _ _ _ q).
+  - apply (q_nodup _ _ _ _ _ q).
+  - apply (q_timers _ _ _ _ _ q).
+  - apply (q_owner _ _ _ _ _ q).
+  - apply (q_eff_bound _ _ _ _ _ q).
+  - apply (q_ran_bound _ _ _ _ _ q).
+  - apply (q_stage_uniq _ _ _ _ _ q).
+  - apply (q_stage_two _ _ _ _ _ q).
+  - apply (q_ran _ _ _ _ _ q).
+  - apply (q_eff _ _ _ _ _ q).
+  - intros u0 h0 O. destruct (q_where _ _ _ _ _ q u0 h0 O) as [M|[M|M]]; auto; discriminate M.
+  - apply (q_len _ _ _ _ _ q).
+  - intros u0 h0 E. discriminate E.
+  - reflexivity.
+  - intros t u0 I F. destruct (q_fpop _ _ _ _ _ q t u0 I F) as (R & _). rewrite R in RUN. discriminate RUN.
+  - intros u0 E. discriminate E.
+  - intros u0 f E. discriminate E.
+  - apply (q_fwait _ _ _ _ _ q).
+  - apply (q_cancel_cb _ _ _ _ _ q).
+  - apply (q_cancel_u _ _ _ _ _ q).
+  - apply (q_fut _ _ _ _ _ q).
+  - apply (q_log _ _ _ _ _ q).
+  - apply (q_seen _ _ _ _ _ q).
+Qed.
+
+Lemma Q_end_iter : forall safe s rest log dl0,
+  Q safe s (LIdle dl0) rest log -> Q safe (fst (end_iter s)) (snd (end_iter s)) rest log.
+Proof.
+  intros safe s rest log dl0 q. unfold end_iter. destruct (astopping s); [|eapply Q_begin_iter, q].
+  unfold stop_loop. destruct (asegs s) as [|seg more]; cbn [fst snd]; eapply Q_stop; try exact q; reflexivity.
 Qed.
 
 Lemma Q_next : forall safe s rest log dl0 k,
@@ -1086,14 +1145,14 @@ Lemma Q_stage2a : forall safe s h k rest log u d,
   Q safe s (LRun h k) rest log -> amem h (acanc s) = false -> nth_error (ahs s) h = Some (CbStage2 u d) ->
   Q safe (ASh (aclock s) (arunning s) (awoken s) (ahs s ++ [CbAction u]) (aready s)
               (tinsert (aclock s + d) (length (ahs s)) (atimers s)) (acanc s) (ahl s) (adue s) (adisp s) (afut s)
-              (anfut s) (u :: aran s) (aeff s))
+              (anfut s) (u :: aran s) (aeff s) (astopping s) (asegs s))
     (LStage2b u (length (ahs s)) k) rest log.
 Proof.
   intros safe s h k rest log u d q NC N.
   set (ht := length (ahs s)).
   set (s' := ASh (aclock s) (arunning s) (awoken s) (ahs s ++ [CbAction u]) (aready s)
               (tinsert (aclock s + d) ht (atimers s)) (acanc s) (ahl s) (adue s) (adisp s) (afut s)
-              (anfut s) (u :: aran s) (aeff s)).
+              (anfut s) (u :: aran s) (aeff s) (astopping s) (asegs s)).
   assert (OH : owner s h = Some u) by (unfold owner; rewrite N; reflexivity).
   assert (UL : (u < length (ahl s))%nat) by (apply (q_owner _ _ _ _ _ q _ _ OH)).
   assert (TW : twostage s u = true) by (eapply (q_stage_two _ _ _ _ _ q); exact N).
@@ -1166,7 +1225,7 @@ Lemma Q_add_fut : forall safe s ph rest log f,
   Q safe s ph rest log -> (f < anfut s)%nat ->
   (forall t u0, In t rest -> fcur t = Some (FWait u0 f) -> In u0 (aeff s)) ->
   Q safe (ASh (aclock s) (arunning s) (awoken s) (ahs s) (aready s) (atimers s) (acanc s) (ahl s) (adue s) (adisp s)
-              (f :: afut s) (anfut s) (aran s) (aeff s)) ph rest log.
+              (f :: afut s) (anfut s) (aran s) (aeff s) (astopping s) (asegs s)) ph rest log.
 Proof.
   intros safe s ph rest log f q B W. constructor; proj; try apply q.
   - intros t u0 f0 I F. destruct (q_fwait _ _ _ _ _ q t u0 f0 I F) as [B0 E]. split; [exact B0|].
@@ -1287,7 +1346,7 @@ Qed.
 Lemma Q_start : forall safe s rest log,
   Q safe s (LPre None []) rest log -> (forall t u, In t rest -> fcur t <> Some (FPop2 u)) ->
   Q safe (ASh (aclock s) true (awoken s) (ahs s) (aready s) (atimers s) (acanc s) (ahl s) (adue s) (adisp s) (afut s)
-              (anfut s) (aran s) (aeff s)) (LIdle None) rest log.
+              (anfut s) (aran s) (aeff s) (astopping s) (asegs s)) (LIdle None) rest log.
 Proof.
   intros safe s rest log q NP. constructor; proj; cbn [held stage2b_of is_pre lcur app].
   - apply (q_af _ _ _ _ _ q).
@@ -1339,19 +1398,19 @@ Lemma Q_loop_step : forall safe s ph rest log quiet s' ph' out,
   loop_step ts fixed abody quiet s ph = Some (s', ph', out) ->
   Q safe s' ph' rest (log ++ out).
 Proof.
-  intros safe s ph rest log quiet s' ph' out q QT H. unfold loop_step in H. destruct ph as [cur todo|dl|h k|h k|u cur todo k|u h k].
+  intros safe s ph rest log quiet s' ph' out q QT H. unfold loop_step in H. destruct ph as [cur todo|dl|h k|h k|u cur todo k|u h k|].
   - (* LPre *)
-    destruct (call_step ts fixed true s cur todo) as [[[[s1 c1] t1] o1]|] eqn:CS.
-    + inv H. eapply Q_cstep; [exact q|apply EX_pre; reflexivity|apply call_step_spec; exact CS].
-    + destruct cur; [discriminate H|]. destruct quiet; [|discriminate H].
-      assert (todo = []).
-      { unfold call_step in CS. destruct todo as [|[|dd|uu] r]; [reflexivity| | |].
-        - destruct (do_sched ts s 0); discriminate CS.
-        - destruct (do_sched ts s dd); discriminate CS.
-        - destruct (do_dispose ts fixed true s uu) as [[? ?] ?]; discriminate CS. }
-      subst todo. pose proof (Q_start _ _ _ _ q (QT eq_refl)) as q1.
-      pose proof (Q_end_iter _ _ _ _ _ q1) as q2.
-      destruct (end_iter _) as [s2 p2] eqn:EI. inv H. rewrite app_nil_r. exact q2.
+    assert (CALL : forall r1, match call_step ts fixed true s cur todo with
+                         | Some (s1, c1, t1, o1) => Some (s1, LPre c1 t1, o1) | None => None end = Some r1 ->
+                         r1 = (s', ph', out) -> Q safe s' ph' rest (log ++ out)).
+    { intros r1 E1 E2. destruct (call_step ts fixed true s cur todo) as [[[[s1 c1] t1] o1]|] eqn:CS; [|discriminate E1].
+      inv E1. inv H1. eapply Q_cstep; [exact q|apply EX_pre; reflexivity|apply call_step_spec; exact CS]. }
+    destruct cur as [c0|]; [eapply CALL; [exact H|reflexivity]|].
+    destruct todo as [|o r]; [|eapply CALL; [exact H|reflexivity]].
+    destruct quiet; [|discriminate H].
+    pose proof (Q_start _ _ _ _ q (QT eq_refl)) as q1.
+    pose proof (Q_begin_iter _ _ _ _ _ q1) as q2.
+    destruct (begin_iter _) as [s2 p2] eqn:EI. inv H. rewrite app_nil_r. exact q2.
   - (* LIdle *)
     destruct (awoken s || match dl with Some t => t <=? aclock s | None => false end); [|discriminate H].
     destruct (split_due (aclock s) (atimers s)) as [due rst] eqn:SD.
@@ -1377,15 +1436,21 @@ Proof.
       * pose proof (Q_release _ _ _ _ _ _ _ None (or_intror eq_refl) q) as q1.
         pose proof (Q_next _ _ _ _ _ k q1) as q2. destruct (next_handle s k) as [s2 p2]. inv H. rewrite app_nil_r. exact q2.
   - (* LAct *)
-    destruct (call_step ts fixed true s cur todo) as [[[[s1 c1] t1] o1]|] eqn:CS.
-    + inv H. eapply Q_cstep; [exact q|apply EX_act; reflexivity|apply call_step_spec; exact CS].
-    + destruct cur; [discriminate H|].
-      pose proof (Q_phase _ _ (LAct u None todo k) (LIdle None) _ _ eq_refl eq_refl eq_refl eq_refl q) as q1.
-      pose proof (Q_next _ _ _ _ _ k q1) as q2. destruct (next_handle s k) as [s2 p2]. inv H.
-      apply Q_log_other; [intros u0; discriminate|intros u0; discriminate|exact q2].
+    assert (CALL : forall r1, match call_step ts fixed true s cur todo with
+                         | Some (s1, c1, t1, o1) => Some (s1, LAct u c1 t1 k, o1) | None => None end = Some r1 ->
+                         r1 = (s', ph', out) -> Q safe s' ph' rest (log ++ out)).
+    { intros r1 E1 E2. destruct (call_step ts fixed true s cur todo) as [[[[s1 c1] t1] o1]|] eqn:CS; [|discriminate E1].
+      inv E1. inv H1. eapply Q_cstep; [exact q|apply EX_act; reflexivity|apply call_step_spec; exact CS]. }
+    destruct cur as [c0|]; [eapply CALL; [exact H|reflexivity]|].
+    destruct todo as [|o r]; [|eapply CALL; [exact H|reflexivity]].
+    pose proof (Q_phase _ _ (LAct u None [] k) (LIdle None) _ _ eq_refl eq_refl eq_refl eq_refl q) as q1.
+    pose proof (Q_next _ _ _ _ _ k q1) as q2. destruct (next_handle s k) as [s2 p2]. inv H.
+    apply Q_log_other; [intros u0; discriminate|intros u0; discriminate|exact q2].
   - (* LStage2b *)
     pose proof (Q_stage2b _ _ _ _ _ _ _ q) as q1.
     pose proof (Q_next _ _ _ _ _ k q1) as q2. destruct (next_handle _ k) as [s2 p2]. inv H. rewrite app_nil_r. exact q2.
+  - (* LDone *)
+    discriminate H.
 Qed.
 End Facts.
 
@@ -1393,7 +1458,7 @@ End Facts.
 Lemma Q_clock : forall safe s ph rest log t,
   Q safe s ph rest log ->
   Q safe (ASh t (arunning s) (awoken s) (ahs s) (aready s) (atimers s) (acanc s) (ahl s) (adue s) (adisp s) (afut s)
-              (anfut s) (aran s) (aeff s)) ph rest log.
+              (anfut s) (aran s) (aeff s) (astopping s) (asegs s)) ph rest log.
 Proof. intros safe s ph rest log t q. constructor; proj; apply q. Qed.
 
 Section Facts.
@@ -1434,9 +1499,9 @@ Proof.
   intros c d (ph & rest & TH & q). exists ph, rest. split; [exact TH|]. unfold atick, AL_. cbn [a_sh a_log]. apply Q_clock. exact q.
 Qed.
 
-Lemma invC_init : forall t0 pre progs, (ts && fixed = true \/ progs = []) -> invC (ainit t0 pre progs).
+Lemma invC_init : forall t0 pre segs progs, (ts && fixed = true \/ progs = []) -> invC (ainit t0 pre segs progs).
 Proof.
-  intros t0 pre progs H. exists (LPre None pre), (map (fun p => AF None p) progs). split; [reflexivity|].
+  intros t0 pre segs progs H. exists (LPre None pre), (map (fun p => AF None p) progs). split; [reflexivity|].
   unfold ainit, AL_. cbn [a_sh a_log aevs map].
   constructor; proj; cbn [held stage2b_of is_pre lcur app length nth_error]; try (intros; contradiction); try discriminate.
   - intros t I. apply in_map_iff in I. destruct I as [p [<- _]]. reflexivity.
@@ -1461,13 +1526,36 @@ Proof.
 Qed.
 
 (* once dispose() has returned, the action does not start *)
-Theorem aio_cancel_effective : forall t0 pre progs sched l1 u l2,
+Theorem aio_cancel_effective : forall t0 pre segs progs sched l1 u l2,
   (ts && fixed = true \/ progs = []) ->
-  AL_ (arun (ainit t0 pre progs) sched) = l1 ++ ADispRet u :: l2 -> ~ In (AStart u) l2.
+  AL_ (arun (ainit t0 pre segs progs) sched) = l1 ++ ADispRet u :: l2 -> ~ In (AStart u) l2.
 Proof.
-  intros t0 pre progs sched l1 u l2 H E.
-  destruct (invC_run sched _ (invC_init t0 pre progs H)) as (ph & rest & _ & q).
+  intros t0 pre segs progs sched l1 u l2 H E.
+  destruct (invC_run sched _ (invC_init t0 pre segs progs H)) as (ph & rest & _ & q).
   pose proof (q_log _ _ _ _ _ q) as L. rewrite E in L. eapply disp_ok_spec, L.
+Qed.
+
+(* dispose() returns only when the cancellation has been carried out: every handle created so far for the
+   call (interval / stage2 / the timer) is cancelled at that moment and stays so -- whichever thread called
+   dispose(), however often the loop was stopped and run again in between.  For the marshalled path this
+   says that future.result() is not left before cancel_handle has run ON the loop. *)
+Theorem aio_dispose_returns_cancelled : forall t0 pre segs progs sched u h,
+  (ts && fixed = true \/ progs = []) ->
+  let c := arun (ainit t0 pre segs progs) sched in
+  In (ADispRet u) (AL_ c) -> owner (a_sh c) h = Some u -> amem h (acanc (a_sh c)) = true.
+Proof.
+  intros t0 pre segs progs sched u h H c I O.
+  destruct (invC_run sched _ (invC_init t0 pre segs progs H)) as (ph & rest & _ & q). fold c in q.
+  eapply (q_eff _ _ _ _ _ q); [|exact O]. apply (q_seen _ _ _ _ _ q). apply amem_in. apply amem_dseen. right. exact I.
+Qed.
+
+(* a thread waiting in future.result() does not move while the future has no result: in particular not
+   while the loop is stopped (nothing but cancel_handle, run by the loop, sets it) *)
+Lemma aio_wait_blocks : forall c tid u f todo,
+  nth_error (a_ths c) tid = Some (AF (Some (FWait u f)) todo) -> amem f (afut (a_sh c)) = false ->
+  atstep c tid = c.
+Proof.
+  intros c tid u f todo N M. unfold AsyncIO.atstep. rewrite N. unfold call_step, do_cont. rewrite M. reflexivity.
 Qed.
 End Facts.
 
@@ -1514,16 +1602,16 @@ Proof.
     apply in_astamp in I. destruct I as [_ [_ I]]. exfalso. eapply cstep_no_start; [apply call_step_spec; exact CS|exact I].
 Qed.
 
-Theorem aio_on_loop_thread : forall t0 pre progs sched tid t u,
+Theorem aio_on_loop_thread : forall t0 pre segs progs sched tid t u,
   (ts && fixed = true \/ progs = []) ->
-  In (tid, t, AStart u) (a_log (arun (ainit t0 pre progs) sched)) -> tid = 0%nat.
+  In (tid, t, AStart u) (a_log (arun (ainit t0 pre segs progs) sched)) -> tid = 0%nat.
 Proof.
-  intros t0 pre progs sched tid t u H.
+  intros t0 pre segs progs sched tid t u H.
   assert (G : forall sched c, invC ts fixed c -> invL c -> invL (arun c sched)).
   { induction sched0 as [|m s IH]; intros c C L; [exact L|]. cbn. destruct m as [tid0|d]; cbn.
     - apply IH; [apply invC_step; exact C|apply invL_step; assumption].
     - apply IH; [apply invC_tick; exact C|exact L]. }
-  apply (G sched _ (invC_init ts fixed t0 pre progs H)). intros ? ? ? [].
+  apply (G sched _ (invC_init ts fixed t0 pre segs progs H)). intros ? ? ? [].
 Qed.
 End Facts.
 
@@ -1534,7 +1622,7 @@ End Facts.
    the clock reaches 1000 ; loop: the timer fires and the action starts -- after dispose() returned *)
 Definition noaction (u : nat) : list aop := [].
 Definition old_code_witness : aconfig :=
-  arun true false noaction (ainit 0 [] [[ARel 1000; ADispose 0%nat]])
+  arun true false noaction (ainit 0 [] [] [[ARel 1000; ADispose 0%nat]])
        ([AMStep 0; AMStep 1; AMStep 0; AMStep 0; AMStep 0; AMStep 1; AMStep 1; AMStep 0; AMTick 1000;
          AMStep 0; AMStep 0; AMStep 0]%nat).
 
@@ -1544,7 +1632,7 @@ Proof. vm_compute. reflexivity. Qed.
 
 (* the same schedule on the repaired code: dispose() waits for the loop and both handles are cancelled *)
 Definition new_code_same_schedule : aconfig :=
-  arun true true noaction (ainit 0 [] [[ARel 1000; ADispose 0%nat]])
+  arun true true noaction (ainit 0 [] [] [[ARel 1000; ADispose 0%nat]])
        ([AMStep 0; AMStep 1; AMStep 0; AMStep 0; AMStep 0; AMStep 1; AMStep 1; AMStep 0; AMTick 1000;
          AMStep 0; AMStep 0; AMStep 0; AMStep 0; AMStep 1; AMStep 0; AMStep 0]%nat).
 Lemma aio_same_schedule_repaired :
